@@ -55,8 +55,11 @@ def run(ctx):
             return True          # false side: not a V3 connection, nothing to authenticate
         return False
 
+    from ..helpers import term_lookup, with_helpers
+    tl = term_lookup(prog, with_helpers(prog, send))
+
     def on_branch(test, truth, st):
-        t = ss.ta.terms_at.get(test)
+        t = tl(test)
         if t is not None and is_auth_test(t) and truth is False:
             return ["auth_ok"]
         return []
@@ -101,12 +104,23 @@ def run(ctx):
                 other.append((f, n))
             else:
                 data_sites.append((f, n))
-    ctx.ob("C07.a", LAN, [f.qual for f, _ in data_sites] == [send.qual], "the only data (default-type) write site is LAN.send", func=LAN, file=file,
-           construct="data write sites", detail={"sites": [f.qual for f, _ in data_sites]},
-           fail=f"data packets are written from {[f.qual for f, _ in data_sites]} (only LAN.send checks the handshake first)")
-    ctx.ob("C07.a", LAN, [f.qual for f, _ in hs_sites] == [f"{V3}.authenticate"] and not other, "the only handshake write site is _LanProtocolV3.authenticate", func=LAN,
-           file=file, construct="handshake write sites", detail={"sites": [f.qual for f, _ in hs_sites], "other": [f.qual for f, _ in other]},
-           fail=f"unexpected transport write sites: handshake {[f.qual for f, _ in hs_sites]}, other {[f.qual for f, _ in other]}")
+    from ..helpers import known_owners
+
+    def owners(sites):
+        out = set()
+        for f, _n in sites:
+            if prog.is_known(f.qual):
+                out.add(f.qual)
+            else:
+                out |= set(known_owners(prog, f)) or {f.qual}      # a helper extracted by a refactoring belongs to its callers
+        return sorted(out)
+    d_own, h_own, o_own = owners(data_sites), owners(hs_sites), owners(other)
+    ctx.ob("C07.a", LAN, d_own == [send.qual], "the only data (default-type) write site is LAN.send", func=LAN, file=file,
+           construct="data write sites", detail={"sites": d_own},
+           fail=f"data packets are written from {d_own} (only LAN.send checks the handshake first)")
+    ctx.ob("C07.a", LAN, h_own == [f"{V3}.authenticate"] and not o_own, "the only handshake write site is _LanProtocolV3.authenticate", func=LAN,
+           file=file, construct="handshake write sites", detail={"sites": h_own, "other": o_own},
+           fail=f"unexpected transport write sites: handshake {h_own}, other {o_own}")
     ctx.count("handshake_writes", len(hs_sites))
     enc = ctx.fn(f"{V3}._encode_encrypted_request")
     es = summarize(prog, enc)
@@ -118,17 +132,22 @@ def run(ctx):
     # ---------------------------------------------------------------- C07.b
     v3 = prog.cls(V3)
     ini = v3.methods.get("__init__")
+    from ..ctor import init_attrs
+    ia = init_attrs(prog, v3)        # attr -> value after _LanProtocolV3() (own initialiser and the super().__init__ chain)
     for attr, init in (("_local_key", None), ("_packet_id", 0), ("_buffer", "bytearray")):
         ctx.count("session_attrs")
         class_level = any(attr in k.attrs for k in prog.mro(v3))
-        inits = [n for n in ast.walk(ini.node) if isinstance(n, ast.Assign) and any(is_self_attr(t, attr) for t in n.targets)] if ini else []
-        good_init = bool(inits)
+        v = ia.get(attr)
+        good_init = v is not None
         if good_init and init is None:
-            good_init = isinstance(inits[0].value, ast.Constant) and inits[0].value.value is None
+            good_init = v == ("const", None)
         elif good_init and init == 0:
-            good_init = isinstance(inits[0].value, ast.Constant) and inits[0].value.value == 0
+            good_init = v == ("const", 0)
+        elif good_init:
+            good_init = v[0] == "call" and v[1] == ("ext", "bytearray") and (not v[2] or v[2] in ((("const", 0),), (("const", b""),))) or v == ("const", b"")
         ctx.ob("C07.b", V3, good_init and not class_level, f"{attr} is per-connection state initialised in __init__ ({'None' if init is None else init})", func=V3, file=file,
-               construct=f"{attr} initialisation", fail=f"{attr} is not fresh per protocol instance (class-level or not reset in __init__): a new connection inherits the old session")
+               construct=f"{attr} initialisation", detail={"value_after_init": show(v) if v else None},
+               fail=f"{attr} is not fresh per protocol instance (class-level or not reset in __init__): a new connection inherits the old session")
     con = ctx.fn(f"{LAN}._connect")
     cs = summarize(prog, con)
     try:
@@ -190,31 +209,34 @@ def run(ctx):
     for pc, exc, node, rst in ws.raises:
         ctx.ob("C07.c", w.qual, f"{wp}._packet_id" not in rst.env, "a failed write does not advance the counter", func=w.qual, file=file, node=node,
                fail="the counter advances although the write failed")
-    for n in ast.walk(w.node):
-        if isinstance(n, ast.Call) and isinstance(n.func, ast.Attribute) and n.func.attr in ("_encode_encrypted_request", "_encode_handshake_request"):
-            t = ws.ta.terms_at.get(n.args[0]) if n.args else None
-            ctx.count("encoder_calls")
-            ctx.ob("C07.c", w.qual, t is not None and strip(t) == pid, f"{n.func.attr} serialises self._packet_id", func=w.qual, file=file, node=n,
-                   fail=f"{n.func.attr} is given `{show(t) if t else None}` instead of the connection's packet counter")
+    enc_terms = {x for t in ws.ta.terms_at.values() for x in subterms(t)
+                 if call_is(x, f"{V3}._encode_encrypted_request", f"{V3}._encode_handshake_request")}
+    for x in sorted(enc_terms, key=show):
+        name = x[1][1].split(".")[-1]
+        t = x[2][1] if len(x[2]) > 1 else dict(x[3]).get("packet_id")
+        ctx.count("encoder_calls")
+        ctx.ob("C07.c", w.qual, t is not None and strip(t) == pid, f"{name} serialises self._packet_id", func=w.qual, file=file, construct=f"{name}(...)",
+               fail=f"{name} is given `{show(t) if t else None}` instead of the connection's packet counter")
     # ---------------------------------------------------------------- C07.d lifetimes
     au = ctx.fn(f"{V3}.authenticated")
     aus = summarize(prog, au)
     ap = au.params[0]
-    for pc, t, node, _st in aus.returns:
-        if node is None or not is_const(t, True):
-            continue
-        fs = atoms(pc)
+    from ..facts import pc_implies, true_facts
+    expa = ("attr", ("param", ap), "_local_key_expiration")
+
+    def is_now(x):
+        return call_is(strip(x), "datetime.datetime.now")
+    tfa = true_facts(aus)
+    ctx.count("lifetimes")
+    ok_auth = bool(tfa)
+    for fs in tfa:
         key_nn = any(f == ("cmp", "is not", ("attr", ("param", ap), "_local_key"), ("const", None)) for f in fs)
-        exp_nn = any(f == ("cmp", "is not", ("attr", ("param", ap), "_local_key_expiration"), ("const", None)) for f in fs)
-        fresh_ = any(f[0] == "cmp" and f[1] == "<=" and call_is(strip(f[2]), "datetime.datetime.now") and strip(f[3]) == ("attr", ("param", ap), "_local_key_expiration")
-                     or f[0] == "cmp" and f[1] == ">=" and call_is(strip(f[3]), "datetime.datetime.now") and strip(f[2]) == ("attr", ("param", ap), "_local_key_expiration")
-                     or f[0] == "cmp" and f[1] == "<" and call_is(strip(f[2]), "datetime.datetime.now") and strip(f[3]) == ("attr", ("param", ap), "_local_key_expiration")
-                     or f[0] == "cmp" and f[1] == ">" and call_is(strip(f[3]), "datetime.datetime.now") and strip(f[2]) == ("attr", ("param", ap), "_local_key_expiration")
-                     for f in fs)
-        ctx.count("lifetimes")
-        ctx.ob("C07.d", au.qual, key_nn and exp_nn and fresh_, "`authenticated` is true only with key and expiry set and the expiry not passed", func=au.qual, file=file,
-               node=node, detail={"facts": [show(f)[:80] for f in fs]},
-               fail="`authenticated` can be true without a key / expiry, or after the expiry passed (comparison flipped or missing)")
+        exp_nn = any(f == ("cmp", "is not", expa, ("const", None)) for f in fs)
+        fresh_ = any(f[0] == "cmp" and ((f[1] in ("<=", "<") and is_now(f[2]) and strip(f[3]) == expa) or (f[1] in (">=", ">") and is_now(f[3]) and strip(f[2]) == expa)) for f in fs)
+        ok_auth = ok_auth and key_nn and exp_nn and fresh_
+    ctx.ob("C07.d", au.qual, ok_auth, "`authenticated` is true only with key and expiry set and the expiry not passed", func=au.qual, file=file,
+           construct="authenticated", detail={"facts": [[show(f)[:80] for f in fs] for fs in tfa]},
+           fail="`authenticated` can be true without a key / expiry, or after the expiry passed (comparison flipped or missing)")
     exp = prog.fold_or_none(v3.attrs.get("AUTHENTICATION_EXPIRATION"), prog.module("msmart.lan"), v3)
     ctx.ob("C07.d", V3, exp == datetime.timedelta(hours=12), "AUTHENTICATION_EXPIRATION folds to 12 h", func=V3, file=file, construct="AUTHENTICATION_EXPIRATION",
            fail=f"authentication lifetime is {exp}, not 12 h")
@@ -222,19 +244,20 @@ def run(ctx):
     als = summarize(prog, al)
     lp = al.params[0]
     ce = ("attr", ("param", lp), "_connection_expiration")
-    expired_false = False
-    for pc, t, node, _st in als.returns:
-        if node is not None and is_const(t, False):
-            fs = atoms(pc)
-            if any(f[0] == "cmp" and f[1] in (">", ">=") and call_is(strip(f[2]), "datetime.datetime.now") and strip(f[3]) == ce for f in fs) or \
-                    any(f[0] == "cmp" and f[1] in ("<", "<=") and call_is(strip(f[3]), "datetime.datetime.now") and strip(f[2]) == ce for f in fs):
-                expired_false = True
-    true_ok = True
-    for pc, t, node, _st in als.returns:
-        if node is not None and is_const(t, True):
-            # the True path must not be reachable under "now > expiration": its pc must contain the negated expiry conjunct
-            true_ok = any(c[0] == "bool" and c[1] == "and" and not truth and any(x[0] == "cmp" and x[1] in (">", ">=") for x in c[2]) for c, truth in pc) or \
-                any(f[0] == "cmp" and f[1] in ("<=", "<") and call_is(strip(f[2]), "datetime.datetime.now") for f in atoms(pc))
+    # every way _alive can be true implies: no expiration configured, or now <= expiration
+    def fresh_or_unset(a):
+        a = strip(a)
+        if a[0] == "cmp" and ((a[1] in ("<=", "<") and is_now(a[2]) and strip(a[3]) == ce) or (a[1] in (">=", ">") and is_now(a[3]) and strip(a[2]) == ce)):
+            return True
+        if a[0] == "un" and a[1] == "not" and strip(a[2]) == ce:
+            return True
+        if a[0] == "cmp" and a[1] == "is" and strip(a[2]) == ce and a[3] == ("const", None):
+            return True
+        return False
+    expired_false = true_ok = False
+    trues = [(pc, t) for pc, t, node, _st in als.returns if node is not None and not (is_const(t) and not t[1])]
+    true_ok = bool(trues) and all(pc_implies(tuple(pc) + (() if is_const(t) else ((t, True),)), fresh_or_unset) for pc, t in trues)
+    expired_false = true_ok
     ctx.count("lifetimes")
     ctx.ob("C07.d", al.qual, expired_false and true_ok, "_alive is false once now > _connection_expiration (elapsed lifetime => reconnect)", func=al.qual, file=file,
            construct="connection expiry test", fail="_alive does not turn false when the configured connection lifetime has elapsed (comparison flipped or missing)")
